@@ -91,6 +91,8 @@ def generate(rng, tier):
         elif na == "first": vals[0] = None
         elif na == "some": vals = [None if rng.random() < 0.35 else v for v in vals]
     case["values"] = vals
+    if form == "proxy" and rng.random() < 0.5:
+        case["derived"] = rng.choice(["copy", "view"])
     if n and rng.random() < 0.3:
         if fam == "regex":
             case["edit"] = (rng.randrange(n), rng.choice(STRINGS + [None]))
@@ -137,7 +139,15 @@ def _execute(case, edit):
     # ------------------------------------------------------------------ regex
     if fam == "regex":
         pattern, flags, repl, count = case["pattern"], case["flags"], case["repl"], case["count"]
-        if edit is None:
+        if edit is None and form == "proxy" and case.get("derived"):
+            parent = di.Vector(gen.np_column("str", list(vals) + ["zzz", "a1"]))
+            try:
+                parent.re.findall("a"); parent.str.upper(); parent.re.sub("z", "y")
+            except Exception:
+                pass
+            vec = parent[:n].copy() if case["derived"] == "copy" else parent[:n]
+            res.cls("proxy-on-derived-vector")
+        elif edit is None:
             vec = di.Vector(gen.np_column("str", vals))
         else:
             vec = di.Vector(gen.np_column("str", old_vals))
@@ -195,7 +205,17 @@ def _execute(case, edit):
     # ------------------------------------------------------------------ dt
     unit = case["unit"]
     res.cls(f"unit:{unit}")
-    if edit is None:
+    if edit is None and form == "proxy" and case.get("derived"):
+        extra = [datetime.datetime(2001, 2, 3, 4, 5, 6) if unit != "D" else datetime.date(2001, 2, 3)] * 2
+        parent = di.Vector(np.array(["NaT" if v is None else v.isoformat() for v in list(vals) + extra], dtype=f"datetime64[{unit}]"))
+        try:
+            parent.dt.year(); parent.dt.to_string("%Y"); parent.dt.replace(day=1); parent.dt.isoweek()
+        except Exception:
+            pass
+        vec = parent[:n].copy() if case["derived"] == "copy" else parent[:n]
+        arr = np.asarray(vec)
+        res.cls("proxy-on-derived-vector")
+    elif edit is None:
         arr = np.array(["NaT" if v is None else v.isoformat() for v in vals], dtype=f"datetime64[{unit}]")
         vec = di.Vector(arr)
     else:
